@@ -180,9 +180,16 @@ static void runPartial(const vf::Args &a, vf::Report &rep)
     };
     ob::StateSpacePtr A = mk({{pos, 1}, {rot, 1}}, "A"), B = mk({{rot, 1}, {tim, 1}}, "B"), C = mk({{q, 1}, {pos, 1}, {tim, 2}}, "C");
     ob::StateSpacePtr N = mk({{A, 1}, {q, 1}}, "N");  // nested: contains A, hence pos and rot
-    std::vector<ob::StateSpacePtr> spaces = {A, B, C, N, pos, rot};
+    // two spaces that share SEVERAL components of equal dimension at equal depth, not covered by a larger common one
+    auto j1 = std::make_shared<ob::SO2StateSpace>(), j2 = std::make_shared<ob::SO2StateSpace>(), j3 = std::make_shared<ob::SO2StateSpace>();
+    j1->setName("j1");
+    j2->setName("j2");
+    j3->setName("j3");
+    ob::StateSpacePtr ARM = mk({{j1, 1}, {j2, 1}, {j3, 1}, {pos, 1}}, "ARM"), PART = mk({{j1, 1}, {j2, 1}, {tim, 1}}, "PART");
+    std::vector<ob::StateSpacePtr> spaces = {A, B, C, N, pos, rot, ARM, PART};
     // value alphabets per named atom (two different values each, so that a transfer is visible)
-    std::map<std::string, std::vector<Coords>> val = {{"pos", {{-1, 0.25}, {0.5, 1}}}, {"rot", {{-PI}, {1.0}}}, {"tim", {{-3}, {7.5}}}, {"quat", {{0, 0, 0, 1}, {1, 0, 0, 0}}}};
+    std::map<std::string, std::vector<Coords>> val = {{"pos", {{-1, 0.25}, {0.5, 1}}}, {"rot", {{-PI}, {1.0}}}, {"tim", {{-3}, {7.5}}}, {"quat", {{0, 0, 0, 1}, {1, 0, 0, 0}}},
+                                                      {"j1", {{0.1}, {-2.0}}}, {"j2", {{0.2}, {2.5}}}, {"j3", {{0.3}, {-0.7}}}};
     std::function<void(const ob::StateSpacePtr &, std::vector<std::string> &)> atoms = [&](const ob::StateSpacePtr &s, std::vector<std::string> &out) {
         if (s->isCompound())
             for (unsigned i = 0; i < s->as<ob::CompoundStateSpace>()->getSubspaceCount(); ++i)
@@ -226,6 +233,22 @@ static void runPartial(const vf::Args &a, vf::Report &rep)
             int expectR = srcCommon == 0 ? ob::NO_DATA_COPIED : srcCommon == (int)as.size() ? ob::ALL_DATA_COPIED : ob::SOME_DATA_COPIED;
             if ((int)r != expectR)
                 rep.fail("C09|partial-copy|result|" + D->getName() + "<-" + S->getName(), "copyStateData result " + std::to_string((int)r) + " expected " + std::to_string(expectR), rj);
+            // the list-driven overload with the list the library itself computes (getCommonSubspaces): same transfer
+            {
+                ob::State *d2 = D->allocState();
+                fill(D, d2, 0);
+                std::vector<std::string> subs;
+                D->getCommonSubspaces(S, subs);
+                ob::copyStateData(D, d2, S, s, subs);
+                if (getCoords(D, d2) != want)
+                {
+                    std::string l;
+                    for (auto &x : subs)
+                        l += x + " ";
+                    rep.fail("C09|partial-copy|common-subspaces|" + D->getName() + "<-" + S->getName(), "copyStateData with getCommonSubspaces() = [" + l + "] gave " + cstr(getCoords(D, d2)) + " expected " + cstr(want), rj);
+                }
+                D->freeState(d2);
+            }
             // ScopedState operator<< does the same
             {
                 ob::ScopedState<> sd(D), ss(S);
